@@ -621,7 +621,9 @@ func genPrioScenario(rng *rand.Rand, g prioGen) PrioScenario {
 			if longIdle {
 				sc.Script = append(sc.Script, POp{K: "S", D: int64(150000 + rng.IntN(150000))})
 			}
-			if !longIdle && !sc.Starved && (sc.Ver == "v2" || sc.Ver == "v1") && rng.IntN(5) == 0 {
+			// (v2 rarely: a v2 discipline with a nil input can never be ended, its goroutines stay
+			// behind in the abandoned bubble and every later goroutine dump has to walk over them)
+			if !longIdle && !sc.Starved && (sc.Ver == "v1" || (sc.Ver == "v2" && rng.IntN(12) == 0)) && rng.IntN(5) == 0 {
 				// the input that stays open is a nil channel: nothing can ever be read from it and it
 				// can never be closed, so the discipline must never report termination on its own
 				kept := sc.Script[:0:0]
